@@ -126,12 +126,12 @@ void COTPdoReset(CO_TPDO *pdo, uint16_t num)
         pdo->Node->Error = CO_ERR_TPDO_COM_OBJ;
         return;
     }
-    (void)CODictRdWord(cod, CO_DEV(0x1800 + num, 3), &inhibit);
-    pdo[num].Inhibit = COTmrGetTicks(tmr, inhibit, CO_TMR_UNIT_100US);
-
     if ((type == 254) || (type == 255)) {
+        /* inhibit and event time of event driven TPDOs */
+        (void)CODictRdWord(cod, CO_DEV(0x1800 + num, 3), &inhibit);
         (void)CODictRdWord(cod, CO_DEV(0x1800 + num, 5), &timer);
     }
+    pdo[num].Inhibit = COTmrGetTicks(tmr, inhibit, CO_TMR_UNIT_100US);
 
     err = CODictRdLong(cod, CO_DEV(0x1800 + num, 1), &id);
     if (err != CO_ERR_NONE) {
